@@ -18,6 +18,19 @@ type flags struct {
 	DisableHooks bool `json:"disableHooks,omitempty"`
 	IsUpgrade    bool `json:"isUpgrade,omitempty"`
 	EnableDNS    bool `json:"enableDNS,omitempty"`
+	// APIVersions: extra --api-versions entries of the client-only route (0, 1 or 2)
+	APIVersions []string `json:"apiVersions,omitempty"`
+}
+
+var apiVersionPool = []string{"ext-a.example.com/v1", "ext-b.example.com/v1", "ext-c.example.com/v2", "ext-d.example.com/v1beta1"}
+
+// capsLine prints which of the pool's API versions the render sees and how many there are in all.
+func capsLine(n int) string {
+	var has []string
+	for _, v := range apiVersionPool {
+		has = append(has, fmt.Sprintf("(.Capabilities.APIVersions.Has %q)", v))
+	}
+	return fmt.Sprintf("  k%dcaps: {{ printf \"%%v|%%v|%%v|%%v|%%d\" %s (len .Capabilities.APIVersions) | quote }}\n", n, strings.Join(has, " "))
 }
 
 func (f flags) String() string {
@@ -284,6 +297,7 @@ var constructs = []construct{
 	{"set-list-element-in-place", false, func(c string, n int) string {
 		return fmt.Sprintf("{{- range .Values.containers }}{{ $_ := set . \"name\" (printf \"%%s-%%s\" $.Release.Name .name) }}{{ range .env }}{{ $_ := set . \"value\" (printf \"%%s!\" .value) }}{{ end }}{{ end }}\n  k%dc: {{ toJson .Values.containers | quote }}\n", n)
 	}},
+	{"capabilities-apiversions", false, func(c string, n int) string { return capsLine(n) }},
 	{"range-nested-maps", true, func(c string, n int) string {
 		return fmt.Sprintf("{{- range $k, $v := .Values.config }}\n  n%d-{{ $k }}: {{ kindOf $v | quote }}\n{{- end }}\n", n)
 	}},
@@ -371,6 +385,10 @@ func genOneChart(rng *rand.Rand, cs *chartSpec, name, prefix string, depth int, 
 				f.Hooks++
 			}
 			b.WriteString("data:\n  fixed: \"f\"\n")
+			if depth == 0 && t == 0 && j == 0 {
+				b.WriteString(capsLine(99))
+				f.Constructs["capabilities-apiversions"] = true
+			}
 			nc := 2 + rng.Intn(6)
 			for x := 0; x < nc; x++ {
 				c := constructs[rng.Intn(len(constructs))]
@@ -429,6 +447,14 @@ func genChart(rng *rand.Rand) *chartSpec {
 	cs := &chartSpec{Files: gen.Files{}, Feat: features{Constructs: map[string]bool{}}}
 	cs.Name = "root" + word(rng)
 	cs.Flags = flags{SubNotes: rng.Intn(2) == 0, IncludeCRDs: rng.Intn(2) == 0, DisableHooks: rng.Intn(4) == 0, IsUpgrade: rng.Intn(5) == 0}
+	switch r := rng.Intn(10); {
+	case r < 3:
+	case r < 8: // exactly one extra entry
+		cs.Flags.APIVersions = []string{apiVersionPool[rng.Intn(len(apiVersionPool))]}
+	default:
+		p := rng.Perm(len(apiVersionPool))
+		cs.Flags.APIVersions = []string{apiVersionPool[p[0]], apiVersionPool[p[1]]}
+	}
 
 	var build func(name, prefix string, depth int) (hasCRDs bool)
 	build = func(name, prefix string, depth int) bool {
